@@ -619,7 +619,6 @@ func vNodeInSomeOnly(svcs []vService) bool {
 }
 
 func vKnown05(svcs []vService, conflict string) {
-	verifKnown("C05-shared-field-different-signature", conflict == "shared field with different type or arguments")
 	probe := false
 	for _, s := range svcs {
 		probe = probe || s.probe
